@@ -22,7 +22,7 @@ Property sentence → theorems
   `fix_50602fc_regression`: the replay scripts now end with an empty table in the model.
 
 -- FULL STATEMENT (not provable, see counterexample):
---   theorem one_outcome : ReachableFresh limit s → ∀ id ∈ s.seenIds,
+--   theorem one_outcome : ReachableFresh c s → ∀ id ∈ s.seenIds,
 --     outcomes s id ∈ {[done c], [canc], nerr⁺}     -- exactly one class, done/canc at most once
 -- FULL STATEMENT of the liveness clause (stated, proved only in the weaker forms of STATUS.md):
 --   theorem retired : WeaklyFair σ → PausedEventuallyResumed σ →
@@ -48,7 +48,7 @@ theorem klog_filter (l : List Event) (k : Peer × Id) : klog (l.filter isProtEv)
 /-- **C05.protect_balanced** (partial: request ids are never re-used).  In every reachable state the
     Protect/Unprotect calls for each (peer, tag) alternate starting with Protect — with fresh ids the
     log is `[]`, `[+]` or `[+,-]` — and the tag is protected exactly when the last call was Protect. -/
-theorem protect_balanced_partial {limit : Nat} {s : State} (h : ReachableFresh limit s) (p : Peer) (id : Id) :
+theorem protect_balanced_partial {c : Cfg} {s : State} (h : ReachableFresh c s) (p : Peer) (id : Id) :
     Alternating (protectLog s p id) ∧ ((p, id) ∈ s.prot ↔ protectLog s p id = [true]) := by
   have hinv := (pinv_reachable h).shape (p, id)
   have e : klog (pi s).plog (p, id) = protectLog s p id := klog_filter s.events (p, id)
@@ -59,7 +59,7 @@ theorem protect_balanced_partial {limit : Nat} {s : State} (h : ReachableFresh l
     `newRequest` step is not parked on a reservation) holds no connection protection; `PeerState`
     lists exactly the table entries of the peer (`peerState` in server.go), so such a request is not
     reported either. -/
-theorem retired_means_released {limit : Nat} {s : State} (h : ReachableFresh limit s) (p : Peer) (id : Id)
+theorem retired_means_released {c : Cfg} {s : State} (h : ReachableFresh c s) (p : Peer) (id : Id)
     (hgone : ∀ r ∈ s.table, ¬ (r.peer = p ∧ r.id = id)) (hpark : parkNew s.park ≠ some (p, id)) :
     (p, id) ∉ s.prot := by
   intro hin
@@ -69,7 +69,7 @@ theorem retired_means_released {limit : Nat} {s : State} (h : ReachableFresh lim
   · exact hpark hk
 
 /-- ids in the table are unique (fresh ids) -/
-theorem table_ids_nodup {limit : Nat} {s : State} (h : ReachableFresh limit s) :
+theorem table_ids_nodup {c : Cfg} {s : State} (h : ReachableFresh c s) :
     (s.table.map (·.id)).Nodup := by
   have := (pinv_reachable h).nodupIds
   simpa [pi, keys, List.map_map, Function.comp_def] using this
@@ -84,8 +84,8 @@ def dupScript : List Action := [.recv 0 (.new 0 (cfgA 2)), .mgr, .recv 0 (.new 0
     alternate — two Protects in a row for the same (peer, tag).  (Known finding `dup-live-id`;
     replayed on the real code by corpus/C05 `known-dup-live-id-*`.) -/
 theorem protect_balanced_counterexample :
-    ∃ s, Reachable 0 s ∧ protectLog s 0 0 = [true, true] :=
-  ⟨run (init 0) dupScript, reachable_run Reachable.init _, by decide⟩
+    ∃ s, Reachable {} s ∧ protectLog s 0 0 = [true, true] :=
+  ⟨run (init {}) dupScript, reachable_run Reachable.init _, by decide⟩
 
 /-- requestor cancels a queued request whose request-hook data is still in flight; the message then
     fails: the request is reported to the cancelled listeners AND to the network-error listeners. -/
@@ -101,8 +101,8 @@ def cancelNerrScript : List Action :=
     corpus/C05 `known-cancel-queued-then-network-error-of-hook-data` (known finding
     `network-error-and-other-outcome`). -/
 theorem one_outcome_counterexample :
-    ∃ s, ReachableFresh 0 s ∧ Event.canc 0 ∈ s.events ∧ Event.nerr 0 ∈ s.events ∧ s.table = [] :=
-  ⟨run (init 0) cancelNerrScript, reachableFresh_run ReachableFresh.init _ (by decide),
+    ∃ s, ReachableFresh {} s ∧ Event.canc 0 ∈ s.events ∧ Event.nerr 0 ∈ s.events ∧ s.table = [] :=
+  ⟨run (init {}) cancelNerrScript, reachableFresh_run ReachableFresh.init _ (by decide),
    by decide, by decide, by decide⟩
 
 /-- the replay of the defect repaired by /repo 369d047 (send failure reported after the executor's
@@ -121,7 +121,7 @@ def fix369Script : List Action :=
 /-- **regression for fix 369d047**: the response is retired (before the fix the model, like the
     code, ended in CompletingSend forever with the connection protected). -/
 theorem fix_369d047_regression :
-    let s := run (init 0) fix369Script
+    let s := run (init {}) fix369Script
     s.table = [] ∧ s.prot = [] ∧ Event.nerr 0 ∈ s.events := by decide
 
 /-- the replay of the defect repaired by /repo 50602fc: UpdateResponse while the terminal status is
@@ -136,18 +136,18 @@ def fix506Script : List Action :=
 /-- **regression for fix 50602fc**: the terminal status survives, the request completes once and is
     retired. -/
 theorem fix_50602fc_regression :
-    let s := run (init 0) fix506Script
+    let s := run (init {}) fix506Script
     s.table = [] ∧ s.prot = [] ∧ Event.done 0 20 ∈ s.events := by decide
 
 -- ------------------------------------------------------------------ non-vacuity
 /-- the hypotheses of `protect_balanced_partial` are met by a non-trivial state: a fresh run that
     registers and retires a request has log `[+,-]` -/
-example : ∃ s, ReachableFresh 0 s ∧ protectLog s 0 0 = [true, false] := by
-  refine ⟨run (init 0) [.recv 0 (.new 0 (cfgA 1)), .mgr, .recv 0 (.cancel 0), .mgr], ?_, by decide⟩
+example : ∃ s, ReachableFresh {} s ∧ protectLog s 0 0 = [true, false] := by
+  refine ⟨run (init {}) [.recv 0 (.new 0 (cfgA 1)), .mgr, .recv 0 (.cancel 0), .mgr], ?_, by decide⟩
   refine ReachableFresh.step (a := .mgr) (ReachableFresh.step (a := .recv 0 (.cancel 0))
     (ReachableFresh.step (a := .mgr) (ReachableFresh.step (a := .recv 0 (.new 0 (cfgA 1)))
       ReachableFresh.init ?_ rfl) trivial rfl) trivial rfl) trivial rfl
-  show 0 ∉ (init 0).seenIds
+  show 0 ∉ (init {}).seenIds
   simp [init]
 
 end GS.C05
